@@ -26,7 +26,7 @@ ASSUMPTIONS = ['world.testing/log.testing off; locale encoding UTF-8; integers w
                'private registry.Group trees and a scratch file; registry._cache/_lastModified are restored after every load']
 LEVEL_TEXT = ('Coq theorems over an executable Gallina model of src/registry.py (names, unicode_escape codec, repr/string-literal evaluation, value classes, '
               'value lines of close(), the reader open_registry(), the Value tree with _makeChild/_setValue/getSpecific): name split/join round trip and '
-              'save/reload round trips proved for all inputs on decidable domains with refuting witnesses outside them (findings F16, F22); the model is tied to '
+              'save/reload round trips proved for all inputs on decidable domains with refuting witnesses outside them (finding C15.F23 remains; C15.F16, F22, F24, F25 are repaired); the model is tied to '
               'the source by a regenerated class inventory + constant tables and by a differential run against the real registry/conf classes on every check.')
 LEVEL_NOTE = ('Trusted: Coq kernel, table extractor, extraction + OCaml driver, the Python harness; CPython primitives listed in trusted_base; '
               'Python code is modelled not verified.')
@@ -49,7 +49,7 @@ def mods():
         boot.boot()
         import supybot.registry as registry, supybot.conf as conf, supybot.utils as utils, supybot.world as world, supybot.ircutils as ircutils
         M.registry, M.conf, M.utils, M.world, M.ircutils = registry, conf, utils, world, ircutils
-        M.inv = t15.inventory()
+        M.inv = t15.inventory(strict=False)     # the strict shape check is gen_T15's (reported as a broken obligation)
         M.fn = os.path.join(boot.boot(), 'c15_scratch.conf')
 
         class OnlySomeT(registry.OnlySomeStrings):
@@ -222,74 +222,26 @@ def validator_bits(q, text):
 
 
 # ---------------------------------------------------------------- known-finding classes
-def needs_quoting(s):
-    global _PRINTABLE
-    if _PRINTABLE is None:
-        import string
-        _PRINTABLE = string.printable[:-4]
-    return any(x not in _PRINTABLE for x in s) and s.strip() != s
-
-
-def string_offdom(v):
-    """complement of the Coq predicate string_dom: written bare although it starts and ends with the same quote"""
-    return isinstance(v, str) and len(v) >= 1 and v[0] == v[-1] and v[0] in '\'"' and not needs_quoting(v)
-
-
-def _vals(inp):
-    """every string value a case stores (for attribution)"""
-    out = []
-    if inp.get('op') == 'reload':
-        v = inp['value']
-        out += [v[1]] if v[0] == 0 else (v[1] if v[0] == 3 else [])
-    if inp.get('op') == 'tree':
-        out.append(inp['init'][1] if inp['init'][0] == 0 else None)
-        for o in inp['ops']:
-            if o[0] == 'setvalue' and o[2][0] == 0:
-                out.append(o[2][1])
-            if o[0] == 'set':
-                out.append(('text', o[2]))
-    return out
-
-
-def cls_quote(inp):
-    if inp.get('op') == 'reload':
-        return kind_of(inp['cls']) in ('string', 'surround', 'spaceright', 'onlysome') and string_offdom(inp['value'][1])
-    if inp.get('op') == 'tree':
-        # a history that ever stores a bare-quoted String value: children are made through str()/set()
-        m = mods()
-        if kind_of(inp['cls']) not in ('string',):
-            return False
-        for x in _vals(inp):
-            if isinstance(x, tuple):
-                try:
-                    p = m.registry.String('', ''); p.set(x[1]); x = p.value
-                except Exception:
-                    continue
-            if string_offdom(x):
-                return True
-    return False
-
-
-def cls_name_bsl(inp):
-    return inp.get('op') == 'reload' and inp.get('var', '').endswith('\\')
-
-
 def cls_comma_set(inp):
     return (inp.get('op') == 'reload' and inp['cls'] in ('registry.CommaSeparatedSetOfStrings',) and inp['value'][0] == 3
             and any(x != x.strip() for x in inp['value'][1]))
 
 
-def cls_databases(inp):
-    return (inp.get('op') == 'reload' and inp['cls'] == 'conf.Databases' and inp['value'][0] == 3
-            and any(c == '\\' or not (' ' <= c <= '~') for x in inp['value'][1] for c in x))
+CLASSES = {'comma_set_edge_blank': cls_comma_set}
 
-
-def cls_socket_timeout(inp):
-    return inp.get('op') == 'set' and inp['cls'] == 'conf.SocketTimeout'
-
-
-CLASSES = {'string_bare_quotes': cls_quote, 'name_trailing_backslash': cls_name_bsl, 'comma_set_edge_blank': cls_comma_set,
-           'databases_raw_serialize': cls_databases, 'socket_timeout_side_effect': cls_socket_timeout}
+# witnesses of repaired defects (findings/C15.json "fixed"): run first on every check, nothing attributes them to a finding
+CORPUS_FIXED = [
+    {'op': 'reload', 'cls': 'registry.String', 'var': 'v', 'value': [0, '"'], 'text': '\'"\'', 'cur': None},          # C15.F16
+    {'op': 'reload', 'cls': 'registry.String', 'var': 'v', 'value': [0, '"a"'], 'text': '\'"a"\'', 'cur': None},      # C15.F16
+    {'op': 'reload', 'cls': 'conf.ValidPrefixChars', 'var': 'v', 'value': [0, '"'], 'text': '\'"\'', 'cur': None},    # C15.F16
+    {'op': 'tree', 'cls': 'registry.String', 'init': [0, '"'], 'ops': [['get', ['c', '#a']]]},                        # C15.F16
+    {'op': 'reload', 'cls': 'registry.String', 'var': '#x\\', 'value': [0, 'abc'], 'text': 'abc', 'cur': None},       # C15.F22
+    {'op': 'reload', 'cls': 'registry.String', 'var': 'v\\', 'value': [0, 'a: b'], 'text': 'a: b', 'cur': None},      # C15.F22
+    {'op': 'reload', 'cls': 'conf.Databases', 'var': 'v', 'value': [3, ['x\\']], 'text': 'x\\', 'cur': None},        # C15.F24
+    {'op': 'reload', 'cls': 'conf.Databases', 'var': 'v', 'value': [3, ['\xe9']], 'text': '\xe9', 'cur': None},        # C15.F24
+    {'op': 'set', 'cls': 'conf.SocketTimeout', 'cur': None, 'text': '12345678901234'},                                # C15.F25
+    {'op': 'reload', 'cls': 'registry.Json', 'var': 'v', 'value': [0, '"a"'], 'text': '"a"', 'cur': None},              # C15.F16: Json is not quoted
+]
 
 
 # ---------------------------------------------------------------- (1) primitives
@@ -812,6 +764,21 @@ def run(ctx):
 def _run(ctx):
     m = mods()
     rng = ctx.rng
+    # (0) witnesses of repaired defects
+    for inp in CORPUS_FIXED:
+        ctx.case('corpus-fixed', inp)
+        if inp['op'] == 'reload':
+            do_reload(ctx, inp)
+        elif inp['op'] == 'set':
+            sub = type(ctx)(ctx.pid, ctx.tier, ctx.seed, {'model_ok': False})
+            check_class_text(sub, inp['cls'], inp.get('cur'), inp['text'], 'v', None)
+            for f in sub.failures:
+                if f['input'].get('op') == 'set':
+                    ctx.fail(inp, f['detail'])
+        else:
+            fails = run_tree(ctx, inp, None)
+            if fails:
+                ctx.fail(inp, 'op %d: %s' % fails[0])
     # (1) primitives
     strs = [(s, 'prim-corpus') for s in CORPUS_STR]
     maxlen = 3 if ctx.scale == 1 else 4
